@@ -48,9 +48,10 @@ CONSTANTS
   DefaultParam,  \* [ParamIds -> Int]
   StakingDelay, VotingDelay,
   MaxHeight,     \* exploration bound: last block height
-  MaxOps         \* exploration bound: number of transactions
+  MaxOps,        \* exploration bound: number of transactions
+  MaxDiscards    \* exploration bound: number of failed (discarded) blocks
 
-ParamIds == {"BPCOUNT", "STAKINGMIN", "NAMEPRICE"}
+ParamIds == {"BPCOUNT", "STAKINGMIN", "GASPRICE", "NAMEPRICE"}   \* GASPRICE in gaer, BPCOUNT a number, the others AERGO
 Issues   == {"BP"} \cup DaoIssues
 None     == "none"
 Absent   == 0 - 1      \* tally of a candidate that was never voted for / no pending parameter
@@ -58,6 +59,7 @@ Absent   == 0 - 1      \* tally of a candidate that was never voted for / no pen
 VARIABLES
   height,     \* current block height
   nops,       \* transactions so far (exploration bound only)
+  ndisc,      \* failed blocks so far (exploration bound only)
   bal,        \* [Accts -> Int]
   sysBal,     \* balance of aergo.system
   nameBal,    \* balance of aergo.name
@@ -70,13 +72,15 @@ VARIABLES
   paramNext,  \* [ParamIds -> Int \cup {Absent}]  parameters decided in this block, in force from the next
   names,      \* [Names -> [owner, dest, born]]
   vpr,        \* [Accts -> Int]  voting power (in memory == persisted buckets)
+  blockStart, \* the abstract state (absv) as of the last block boundary = the state of the last connected block
   lastAct
 
-vars == <<height, nops, bal, sysBal, nameBal, stake, total, vote, tally, voteTotal, param, paramNext, names, vpr, lastAct>>
+vars == <<height, nops, ndisc, bal, sysBal, nameBal, stake, total, vote, tally, voteTotal, param, paramNext, names, vpr, blockStart, lastAct>>
 absv == [height |-> height, bal |-> bal, sysBal |-> sysBal, nameBal |-> nameBal, stake |-> stake, total |-> total,
          vote |-> vote, tally |-> tally, voteTotal |-> voteTotal, param |-> param, paramNext |-> paramNext,
          names |-> names, vpr |-> vpr]
-view == <<absv, nops>>
+\* blockStart matters for the future only while a DiscardBlock is still possible
+view == <<absv, IF ndisc < MaxDiscards THEN blockStart ELSE <<>>, nops, ndisc>>
 
 CandsOf(i) == IF i = "BP" THEN Cands ELSE DaoVals[i]
 NoVote == [set |-> FALSE, cands |-> {}, amt |-> 0]
@@ -127,6 +131,10 @@ CanUnstake(a, x) == /\ stake[a].amt > 0
                     /\ ~Locked(a)
                     /\ (stake[a].amt - x = 0 \/ stake[a].amt - x >= param["STAKINGMIN"])
 CanVote(a, i)    == stake[a].amt > 0 /\ ~VLocked(a, i)
+\* validation.go validateById: a proposed parameter value is positive (0 is never accepted: a gas price or a BP count of
+\* 0 would make the node divide by zero), BPCOUNT at most 100 (the other upper bound, MaxAER, is not modelled)
+ValidVal(i, v)   == v > 0 /\ (i = "BPCOUNT" => v <= 100)
+CanVoteDao(a, i, v) == ValidVal(i, v) /\ CanVote(a, i)
 CanCreate(a, n, p)     == bal[a] >= p /\ p >= param["NAMEPRICE"] /\ names[n].owner = None
 CanUpdate(a, n, to, p) == bal[a] >= p /\ p >= param["NAMEPRICE"] /\ names[n].owner = a /\ names[n].born < height
 CanTransfer(a, b, x)   == a # b /\ bal[a] >= x
@@ -144,14 +152,14 @@ Can(op) ==
   CASE op.name = "Stake"      -> CanStake(op.a, op.x)
     [] op.name = "Unstake"    -> CanUnstake(op.a, op.x)
     [] op.name = "VoteBP"     -> CanVote(op.a, "BP")
-    [] op.name = "VoteDAO"    -> CanVote(op.a, op.i)
+    [] op.name = "VoteDAO"    -> CanVoteDao(op.a, op.i, op.v)
     [] op.name = "NameCreate" -> CanCreate(op.a, op.n, op.p)
     [] op.name = "NameUpdate" -> CanUpdate(op.a, op.n, op.to, op.p)
     [] op.name = "Transfer"   -> CanTransfer(op.a, op.to, op.x)
 
 \* ------------------------------------------------------------------ actions
 Init ==
-  /\ height = 1 /\ nops = 0
+  /\ height = 1 /\ nops = 0 /\ ndisc = 0
   /\ bal = [a \in Accts |-> InitBal]
   /\ sysBal = 0 /\ nameBal = 0 /\ total = 0
   /\ stake = [a \in Accts |-> [amt |-> 0, when |-> 0, ever |-> FALSE]]
@@ -162,6 +170,7 @@ Init ==
   /\ paramNext = [p \in ParamIds |-> Absent]
   /\ names = [n \in Names |-> [owner |-> None, dest |-> None, born |-> 0]]
   /\ vpr = [a \in Accts |-> 0]
+  /\ blockStart = absv
   /\ lastAct = [name |-> "Init"]
 
 \* staking.go stakeCmd.run
@@ -215,7 +224,7 @@ CastVote(a, i, cs) ==
   /\ UNCHANGED <<bal, sysBal, nameBal, total, param, names>>
 
 VoteBP(a, cs)     == CastVote(a, "BP", cs)
-VoteDAO(a, i, v)  == CastVote(a, i, {v})
+VoteDAO(a, i, v)  == ValidVal(i, v) /\ CastVote(a, i, {v})
 
 \* name/execute.go: create
 NameCreate(a, n, p) ==
@@ -252,11 +261,12 @@ Tx(op) == /\ nops < MaxOps
           /\ Do(op)
           /\ nops' = nops + 1
           /\ height' = height
+          /\ UNCHANGED <<blockStart, ndisc>>
           /\ lastAct' = op
 
 \* a refused transaction changes nothing (used by the trace specification; a stuttering step for TLC)
 Refuse(op) == /\ ~Can(op)
-              /\ UNCHANGED <<height, nops, bal, sysBal, nameBal, stake, total, vote, tally, voteTotal, param, paramNext, names, vpr>>
+              /\ UNCHANGED <<height, nops, bal, sysBal, nameBal, stake, total, vote, tally, voteTotal, param, paramNext, names, vpr, blockStart, ndisc>>
               /\ lastAct' = [name |-> "Refused", op |-> op]
 
 \* block boundary: the state is committed, the parameters decided in the block come into force.
@@ -267,11 +277,29 @@ Advance(h2, restart) ==
   /\ height' = h2
   /\ param' = [p \in ParamIds |-> IF paramNext[p] # Absent THEN paramNext[p] ELSE param[p]]
   /\ paramNext' = [p \in ParamIds |-> Absent]
-  /\ UNCHANGED <<nops, bal, sysBal, nameBal, stake, total, vote, tally, voteTotal, names, vpr>>
+  /\ UNCHANGED <<nops, ndisc, bal, sysBal, nameBal, stake, total, vote, tally, voteTotal, names, vpr>>
+  /\ blockStart' = absv'
   /\ lastAct' = [name |-> "NextBlock", restart |-> restart]
 NextBlock(restart) == Advance(height + 1, restart)
 
-Next == (\E op \in Ops : Tx(op)) \/ (\E r \in BOOLEAN : NextBlock(r))
+\* The block being executed fails validation (chain.executeBlock returns an error and calls cs.Update(bestBlock)):
+\* its block state is dropped, i.e. the state is the one of the last connected block again, the in-memory voting
+\* power rank is reloaded from that state and the parameter values decided by votes of the failed block - which
+\* live only in memory until the block boundary - are forgotten (system.CommitParams(false)).  Whatever block
+\* follows starts from exactly the state of the last connected block.
+DiscardBlock ==
+  /\ ndisc < MaxDiscards
+  /\ ndisc' = ndisc + 1
+  /\ absv # blockStart          \* at least one transaction was executed in the block
+  /\ height' = blockStart.height /\ bal' = blockStart.bal /\ sysBal' = blockStart.sysBal /\ nameBal' = blockStart.nameBal
+  /\ stake' = blockStart.stake /\ total' = blockStart.total /\ vote' = blockStart.vote /\ tally' = blockStart.tally
+  /\ voteTotal' = blockStart.voteTotal /\ names' = blockStart.names /\ vpr' = blockStart.vpr
+  /\ param' = blockStart.param
+  /\ paramNext' = [p \in ParamIds |-> Absent]
+  /\ UNCHANGED <<nops, blockStart>>
+  /\ lastAct' = [name |-> "DiscardBlock"]
+
+Next == (\E op \in Ops : Tx(op)) \/ (\E r \in BOOLEAN : NextBlock(r)) \/ DiscardBlock
 
 Spec == Init /\ [][Next]_vars
 
@@ -312,6 +340,13 @@ RankingIsSorted ==
        /\ \A k \in 1..(Len(r) - 1) : Before(tally[i], i, r[k], r[k + 1])
 \* a name has an owner iff it has a destination
 NameWellFormed == \A n \in Names : (names[n].owner = None) = (names[n].dest = None)
+\* the parameters in force are the ones recorded in the state of the last connected block (no value decided in a
+\* block that was not connected is ever in force), and nothing is pending at a block boundary
+ParamMemEqualsState == /\ param = blockStart.param
+                       /\ blockStart.height = height
+                       /\ \A p \in ParamIds : blockStart.paramNext[p] = Absent
+\* no parameter is ever 0 (nor is a 0 pending)
+ParamsPositive == \A p \in ParamIds : param[p] > 0 /\ paramNext[p] # 0
 
 \* ------------------------------------------------------------------ action properties
 IsTx(n) == lastAct'.name = n
@@ -337,7 +372,8 @@ StakeExact ==
 NameOnlyByOwner ==
   [][\A n \in Names : names'[n] # names[n] =>
         \/ IsTx("NameCreate") /\ lastAct'.n = n /\ names[n].owner = None /\ names'[n].owner = lastAct'.a
-        \/ IsTx("NameUpdate") /\ lastAct'.n = n /\ names[n].owner = lastAct'.a]_vars
+        \/ IsTx("NameUpdate") /\ lastAct'.n = n /\ names[n].owner = lastAct'.a
+        \/ IsTx("DiscardBlock")]_vars
 NamePricePaid ==
   [][(IsTx("NameCreate") \/ IsTx("NameUpdate")) =>
         /\ nameBal' - nameBal >= param["NAMEPRICE"]
@@ -345,8 +381,16 @@ NamePricePaid ==
 \* votes and stakes of an account change only by its own transactions
 OnlyOwnTx ==
   [][\A a \in Accts : (stake'[a] # stake[a] \/ vote'[a] # vote[a] \/ vpr'[a] # vpr[a]) =>
-        lastAct'.name \in {"Stake", "Unstake", "VoteBP", "VoteDAO"} /\ lastAct'.a = a]_vars
+        \/ lastAct'.name \in {"Stake", "Unstake", "VoteBP", "VoteDAO"} /\ lastAct'.a = a
+        \/ IsTx("DiscardBlock")]_vars
 \* parameters change only at block boundaries and only to a value decided by a parameter vote
 ParamsAtBoundary ==
   [][param' # param => lastAct'.name = "NextBlock" /\ \A p \in ParamIds : param'[p] # param[p] => param'[p] = paramNext[p]]_vars
+\* a parameter value is pending only through a winning vote executed in the block under construction
+PendingOnlyByVote ==
+  [][\A p \in ParamIds : (paramNext'[p] # paramNext[p] /\ paramNext'[p] # Absent) =>
+        (IsTx("VoteDAO") /\ lastAct'.i = p) \/ IsTx("Unstake")]_vars
+\* a failed block leaves exactly the state of the last connected block, nothing pending
+DiscardRestores ==
+  [][IsTx("DiscardBlock") => absv' = blockStart /\ blockStart' = blockStart]_vars
 =============================================================================
